@@ -75,7 +75,17 @@ def write_evidence(prop, tier, seed, level, coverage, wall, violations, assumpti
 
 
 def finish(prop, tier, seed, t0, coverage, violations, assumptions, infra_problem=None):
-    """Common tail: known-finding filtering, VIOLATION lines, evidence, exit status."""
+    """Common tail: regression replays, known-finding filtering, VIOLATION lines, evidence, exit status."""
+    from . import regress
+    try:
+        rv, ran, rproblem = regress.run(prop)
+    except Exception as e:  # the replay tier must never turn into an alarm by itself
+        rv, ran, rproblem = [], 0, "regression tier crashed: %r" % (e,)
+    violations = list(rv) + list(violations)
+    coverage["regression_cases_replayed"] = ran
+    coverage["evaluations"] = coverage.get("evaluations", 0) + ran
+    if rproblem:
+        infra_problem = infra_problem or rproblem
     known = load_known()
     new = []
     known_hits = {}
